@@ -3,31 +3,17 @@ import ScnrVerif.Model.Dot
 # The text layer of the DOT export (C18)
 
 `Model/Dot.lean` models the *structure* of a DOT file written by `compiled_dfa_render`; this file
-models the *text*: a lexer and a recursive-descent parser for the DOT subset (a port of the
-harness' `dotparse.rs`: `lexDot` = `lex`, `parseDot` = `parse`), the extraction of the structure
-from the parse tree (`decodeDot` = `decode` applied to the main graph and, as the harness does, to
-every cluster with the node prefix `<tid>_` taken from the cluster label), and the writer
-(`renderDot`: the text `dot-writer` produces for `compiled_dfa_render`).
+models the *text*: a lexer and a recursive-descent parser for the DOT language as far as it can
+occur in such files (`lexDot`, `parseDot`; a superset of the harness' strict `dotparse.rs`, so
+that a harmless rewrite of the crate's writer is not a false alarm), the extraction of the
+structure from the parse tree (`decodeDot`: `dotparse.rs::decode` applied to the main graph and, as
+the harness does, to every cluster with the node prefix `<tid>_` taken from the cluster label,
+lenient about cosmetics), and the writer (`renderDot`: the text `dot-writer` produces for
+`compiled_dfa_render`).
 
 Code points are `Nat`, text is `List Nat`. Keywords are written as code-point lists (string literals
-do not reduce well in the kernel); `Proofs/DotText.lean` checks each against its string.
-
-Deliberate differences from `dotparse.rs` (all listed again in `Proofs/DotText.lean`):
-* `char::is_alphanumeric` is taken for ASCII only (outside of quoted strings a non-ASCII letter or
-  digit is rejected here; the crate writes non-ASCII characters only inside quoted strings);
-  `char::is_whitespace` is the full Unicode `White_Space` set;
-* `str::parse::<usize>` has no overflow check here (numbers are unbounded `Nat`);
-* `decode` sorts the nodes and the edges (and the harness sorts the clusters by token type) because
-  it compares pictures as sets; `decodeDot` keeps the order of the document, which is finer;
-* `Graph` keeps only the last `label` of a (sub)graph and drops all other graph attributes and the
-  cluster names; the parse tree `DGraphT` keeps every statement in order, and `decodeDot` looks up
-  the last `label`;
-* `decodeDot` is lenient about cosmetics: the kind of a node is read from its label and number
-  only (`"<id> T<tid>"` accepting, else `"<id>"` with start = node 0), where `decode` reads it from
-  `color` (blue / red / none, anything else an error); `shape`, `color`, `penwidth` and unknown
-  attributes are ignored;
-* the parser additionally accepts default-attribute statements `node [..];`, `edge [..];`,
-  `graph [..];` (`DStmt.dflt`, ignored by `decodeDot`), which `dotparse.rs` rejects.
+do not reduce well in the kernel); `Proofs/DotText.lean` checks each against its string, and lists
+what is accepted, rejected and undecodable, and every difference from `dotparse.rs`.
 -/
 namespace Scnr
 
@@ -57,23 +43,29 @@ def parseDigits (ds : List Nat) : Option Nat :=
 /-- `s.parse::<usize>().ok()` (an optional `+`, then one or more ASCII digits), without overflow -/
 def parseNat (s : List Nat) : Option Nat := parseDigits (dropPlus s)
 
-/-! ## Lexer -/
+/-! ## Lexer
+
+The lexical level of the DOT language: bare identifiers, numerals, quoted strings, the punctuation
+`{ } [ ] = , ;`, the edge operator `->`; whitespace and comments (`/* ... */`, `// ...`, lines
+starting with `#`) are skipped. -/
 
 inductive DTok where
+  /-- a bare ID: identifier (`[A-Za-z_\x80-][A-Za-z_0-9\x80-]*`) or numeral
+      (`-?(\.[0-9]+|[0-9]+(\.[0-9]*)?)`), with its text -/
   | id (s : List Nat)
   /-- a quoted string with its raw content (escapes are kept as written) -/
   | str (s : List Nat)
   | lbrace | rbrace | lbrack | rbrack | eq | comma | semi | arrow
 deriving Repr, DecidableEq, Inhabited
 
-/-- `char::is_whitespace` (Unicode `White_Space`) -/
-def isWs (c : Nat) : Bool :=
-  (9 ≤ c && c ≤ 13) || c == 32 || c == 0x85 || c == 0xA0 || c == 0x1680 || (0x2000 ≤ c && c ≤ 0x200A)
-    || c == 0x2028 || c == 0x2029 || c == 0x202F || c == 0x205F || c == 0x3000
+/-- blank, tab, line feed, vertical tab, form feed, carriage return -/
+def isWs (c : Nat) : Bool := (9 ≤ c && c ≤ 13) || c == 32
 
-/-- `c.is_alphanumeric() || c == '_' || c == '.'`, alphanumerics restricted to ASCII -/
-def isIdChar (c : Nat) : Bool :=
-  (48 ≤ c && c ≤ 57) || (65 ≤ c && c ≤ 90) || (97 ≤ c && c ≤ 122) || c == 95 || c == 46
+/-- first character of an identifier: a letter, `_`, or any code point from 0x80 on -/
+def isIdStart (c : Nat) : Bool := (65 ≤ c && c ≤ 90) || (97 ≤ c && c ≤ 122) || c == 95 || 128 ≤ c
+
+/-- further characters of an identifier: also digits -/
+def isIdChar (c : Nat) : Bool := isIdStart c || isDigit c
 
 def punct (c : Nat) : Option DTok :=
   if c = 123 then some .lbrace else if c = 125 then some .rbrace
@@ -81,46 +73,96 @@ def punct (c : Nat) : Option DTok :=
   else if c = 61 then some .eq else if c = 44 then some .comma else if c = 59 then some .semi
   else none
 
-/-- Where the loops of `lex` stand: between tokens, inside a quoted string (content so far,
-    reversed), after a backslash inside a string, inside an identifier, after a `-`. -/
+/-- Where the lexer stands. Token texts are collected in reverse. -/
 inductive LexSt where
+  /-- at the beginning of a line (a `#` here starts a preprocessor line) -/
+  | bol
+  /-- between tokens -/
   | top
   | inStr (acc : List Nat)
+  /-- after a backslash inside a string -/
   | inEsc (acc : List Nat)
   | inId (acc : List Nat)
+  /-- after `-`: `>` completes the edge operator, a digit or `.` starts a negative numeral -/
   | dash
+  /-- in a numeral after a leading `.` (or `-.`): a digit must follow -/
+  | numNeed (acc : List Nat)
+  /-- in the integer part of a numeral -/
+  | numInt (acc : List Nat)
+  /-- in the fraction of a numeral -/
+  | numFrac (acc : List Nat)
+  /-- after `/`: `*` or `/` must follow -/
+  | slash
+  /-- in a `// ...` comment or a `#` line -/
+  | lineC
+  /-- in a `/* ... */` comment -/
+  | blockC
+  /-- in a `/* ... */` comment after a `*` -/
+  | blockStar
 deriving Repr, DecidableEq, Inhabited
 
-/-- one character between tokens: the `if` chain of `lex` -/
+/-- one character between tokens -/
 def stepTop (c : Nat) : Option (List DTok × LexSt) :=
-  if isWs c then some ([], .top)
+  if c = 10 then some ([], .bol)
+  else if c = 13 then some ([], .bol)
+  else if isWs c then some ([], .top)
   else if c = 34 then some ([], .inStr [])
   else match punct c with
     | some t => some ([t], .top)
     | none =>
       if c = 45 then some ([], .dash)
-      else if isIdChar c then some ([], .inId [c])
+      else if c = 47 then some ([], .slash)
+      else if c = 46 then some ([], .numNeed [c])
+      else if isDigit c then some ([], .numInt [c])
+      else if isIdStart c then some ([], .inId [c])
       else none
 
+/-- the end of a bare ID: the token, then the character is looked at as between tokens -/
+def endTok (acc : List Nat) (c : Nat) : Option (List DTok × LexSt) :=
+  match stepTop c with
+  | some (out, st) => some (.id acc.reverse :: out, st)
+  | none => none
+
 def lexStep : LexSt → Nat → Option (List DTok × LexSt)
+  | .bol, c => if c = 35 then some ([], .lineC) else stepTop c
   | .top, c => stepTop c
   | .inStr acc, c =>
     if c = 92 then some ([], .inEsc (c :: acc))
     else if c = 34 then some ([.str acc.reverse], .top)
     else some ([], .inStr (c :: acc))
   | .inEsc acc, c => some ([], .inStr (c :: acc))
-  | .inId acc, c =>
-    if isIdChar c then some ([], .inId (c :: acc))
-    else match stepTop c with
-      | some (out, st) => some (.id acc.reverse :: out, st)
-      | none => none
-  | .dash, c => if c = 62 then some ([.arrow], .top) else none
+  | .inId acc, c => if isIdChar c then some ([], .inId (c :: acc)) else endTok acc c
+  | .dash, c =>
+    if c = 62 then some ([.arrow], .top)
+    else if c = 46 then some ([], .numNeed [c, 45])
+    else if isDigit c then some ([], .numInt [c, 45])
+    else none
+  | .numNeed acc, c => if isDigit c then some ([], .numFrac (c :: acc)) else none
+  | .numInt acc, c =>
+    if isDigit c then some ([], .numInt (c :: acc))
+    else if c = 46 then some ([], .numFrac (c :: acc))
+    else if isIdStart c then none
+    else endTok acc c
+  | .numFrac acc, c =>
+    if isDigit c then some ([], .numFrac (c :: acc))
+    else if c = 46 then none
+    else if isIdStart c then none
+    else endTok acc c
+  | .slash, c => if c = 42 then some ([], .blockC) else if c = 47 then some ([], .lineC) else none
+  | .lineC, c => if c = 10 then some ([], .bol) else if c = 13 then some ([], .bol) else some ([], .lineC)
+  | .blockC, c => if c = 42 then some ([], .blockStar) else some ([], .blockC)
+  | .blockStar, c =>
+    if c = 47 then some ([], .top) else if c = 42 then some ([], .blockStar) else some ([], .blockC)
 
-/-- end of input: fine between tokens and at the end of an identifier; an open string, a dangling
-    backslash and a lone `-` are errors -/
+/-- end of input: fine between tokens, at the end of a bare ID and in a line comment; an open
+    string, an open `/*` comment, a lone `-`, `/` or `.` are errors -/
 def lexFinish : LexSt → Option (List DTok)
+  | .bol => some []
   | .top => some []
+  | .lineC => some []
   | .inId acc => some [.id acc.reverse]
+  | .numInt acc => some [.id acc.reverse]
+  | .numFrac acc => some [.id acc.reverse]
   | _ => none
 
 /-- the tokens are collected in reverse -/
@@ -134,22 +176,33 @@ def lexRun : LexSt → List DTok → List Nat → Option (List DTok)
     | none => none
     | some (o, st') => lexRun st' (o.reverse ++ out) r
 
-def lexDot (cs : List Nat) : Option (List DTok) := lexRun .top [] cs
+def lexDot (cs : List Nat) : Option (List DTok) := lexRun .bol [] cs
 
-/-! ## Parser -/
+/-! ## Parser
+
+```
+graph     : [ strict ] digraph [ ID ] '{' stmt_list '}'
+stmt_list : [ stmt [ ';' ] stmt_list ]
+stmt      : ID '=' ID | (graph | node | edge) attr_list | ID ( '->' ID )* [ attr_list ]
+          | [ subgraph [ ID ] ] '{' stmt_list '}'
+attr_list : '[' [ a_list ] ']' [ attr_list ]
+a_list    : ID '=' ID [ (';' | ',') ] [ a_list ]
+ID        : identifier | numeral | quoted string      (keywords are not IDs)
+```
+Keywords (`strict`, `graph`, `digraph`, `node`, `edge`, `subgraph`) are case-insensitive. -/
 
 /-- The parse tree: the statements of a `{ ... }` body in order. -/
 inductive DStmt where
-  /-- graph attribute `k = v ;` -/
+  /-- graph attribute `k = v` -/
   | attr (k v : List Nat)
-  /-- node statement `"name" [k=v, ...] ;` (no attribute list: `[]`) -/
+  /-- node statement `name [k=v ...]` (no attribute list: `[]`) -/
   | node (name : List Nat) (attrs : List (List Nat × List Nat))
-  /-- edge statement `"a" -> "b" [k=v, ...] ;` -/
+  /-- edge statement `a -> b [k=v ...]`; a chain `a -> b -> c [..]` is the edges `a -> b [..]`,
+      `b -> c [..]` -/
   | edge (src dst : List Nat) (attrs : List (List Nat × List Nat))
-  /-- `subgraph cluster_... { ... }` -/
+  /-- `subgraph name { ... }`, `subgraph { ... }`, `{ ... }` (no name: `[]`) -/
   | sub (name : List Nat) (body : List DStmt)
-  /-- default attributes `node [k=v, ...] ;` / `edge [...] ;` / `graph [...] ;` (not written by the
-      crate and not accepted by `dotparse.rs`; accepted here so that restyled files still decode) -/
+  /-- default attributes `node [..]` / `edge [..]` / `graph [..]` (keyword in lower case) -/
   | dflt (what : List Nat) (attrs : List (List Nat × List Nat))
 deriving Inhabited
 
@@ -159,6 +212,9 @@ deriving Inhabited
 
 def kwDigraph : List Nat := [100, 105, 103, 114, 97, 112, 104]
 def kwSubgraph : List Nat := [115, 117, 98, 103, 114, 97, 112, 104]
+def kwStrict : List Nat := [115, 116, 114, 105, 99, 116]
+def kwCluster : List Nat := [99, 108, 117, 115, 116, 101, 114]
+/-- `cluster_` (what the crate's writer puts in front of the cluster number) -/
 def kwClusterPre : List Nat := [99, 108, 117, 115, 116, 101, 114, 95]
 def kwLabel : List Nat := [108, 97, 98, 101, 108]
 def kwColor : List Nat := [99, 111, 108, 111, 114]
@@ -182,74 +238,116 @@ def kwNode : List Nat := [110, 111, 100, 101]
 def kwEdge : List Nat := [101, 100, 103, 101]
 def kwGraph : List Nat := [103, 114, 97, 112, 104]
 
-/-- `P::value`: an identifier or a quoted string -/
-def tokValue : DTok → Option (List Nat)
-  | .id s => some s
+def lowerChar (c : Nat) : Nat := if 65 ≤ c && c ≤ 90 then c + 32 else c
+
+/-- ASCII lower case (keywords are case-insensitive) -/
+def lower (s : List Nat) : List Nat := s.map lowerChar
+
+def isKw (s : List Nat) : Bool :=
+  decide (lower s = kwStrict) || decide (lower s = kwGraph) || decide (lower s = kwDigraph)
+    || decide (lower s = kwNode) || decide (lower s = kwEdge) || decide (lower s = kwSubgraph)
+
+def isDfltKw (s : List Nat) : Bool :=
+  decide (lower s = kwGraph) || decide (lower s = kwNode) || decide (lower s = kwEdge)
+
+/-- an ID: a bare identifier or numeral that is not a keyword, or a quoted string -/
+def tokID : DTok → Option (List Nat)
+  | .id s => if isKw s then none else some s
   | .str s => some s
   | _ => none
 
-/-- `P::attrs` after the `[`: `k = v (, k = v)* ]` (at least one attribute) -/
-def pAttrs : List DTok → Option (List (List Nat × List Nat) × List DTok)
-  | .id k :: .eq :: v :: sep :: r =>
-    match tokValue v with
-    | none => none
-    | some val =>
-      match sep with
-      | .comma =>
-        match pAttrs r with
-        | some (as, r') => some ((k, val) :: as, r')
-        | none => none
-      | .rbrack => some ([(k, val)], r)
-      | _ => none
-  | _ => none
+def consAttr (kv : List Nat × List Nat) :
+    Option (List (List Nat × List Nat) × List DTok) → Option (List (List Nat × List Nat) × List DTok)
+  | some (as, r) => some (kv :: as, r)
+  | none => none
 
-/-- `if self.peek() == Some(&Tok::LBrack) { self.attrs()? } else { vec![] }` -/
+/-- attribute lists after the first `[`: entries `ID = ID` separated by `,`, `;` or nothing, up to
+    `]`; further lists `[...]` may follow directly and are appended. `sep` says whether a separator
+    may come next (directly after an entry). -/
+def pAList : Bool → List DTok → Option (List (List Nat × List Nat) × List DTok)
+  | _, [] => none
+  | _, .rbrack :: r =>
+    match r with
+    | .lbrack :: r' => pAList false r'
+    | _ => some ([], r)
+  | sep, .comma :: r => if sep then pAList false r else none
+  | sep, .semi :: r => if sep then pAList false r else none
+  | _, k :: .eq :: v :: r =>
+    match tokID k, tokID v with
+    | some key, some val => consAttr (key, val) (pAList true r)
+    | _, _ => none
+  | _, _ => none
+
+/-- `[ attr_list ]` -/
 def pOptAttrs : List DTok → Option (List (List Nat × List Nat) × List DTok)
-  | .lbrack :: r => pAttrs r
+  | .lbrack :: r => pAList false r
   | ts => some ([], ts)
 
-/-- after `id`: `= value ;` -/
-def pAttrStmt (k : List Nat) : List DTok → Option (DStmt × List DTok)
-  | .eq :: v :: .semi :: r =>
-    match tokValue v with
-    | some val => some (.attr k val, r)
+/-- `( '->' ID )*` -/
+def pTargets : List DTok → Option (List (List Nat) × List DTok)
+  | .arrow :: r =>
+    match r with
+    | [] => none
+    | t :: r' =>
+      match tokID t with
+      | none => none
+      | some b =>
+        match pTargets r' with
+        | some (bs, r'') => some (b :: bs, r'')
+        | none => none
+  | ts => some ([], ts)
+
+/-- the edges of a chain `a -> b -> c ...`, all with the same attributes -/
+def chainEdges (a : List Nat) (attrs : List (List Nat × List Nat)) : List (List Nat) → List DStmt
+  | [] => []
+  | b :: bs => .edge a b attrs :: chainEdges b attrs bs
+
+/-- after an ID `a`: `= ID` (graph attribute), or `( '->' ID )* [ attr_list ]` (node or edges) -/
+def pNamed (a : List Nat) : List DTok → Option (List DStmt × List DTok)
+  | .eq :: v :: r =>
+    match tokID v with
+    | some val => some ([.attr a val], r)
     | none => none
-  | _ => none
-
-def pAttrsSemi (ts : List DTok) : Option (List (List Nat × List Nat) × List DTok) :=
-  match pOptAttrs ts with
-  | some (as, .semi :: r) => some (as, r)
-  | _ => none
-
-/-- after `node` / `edge` / `graph`: a non-empty attribute list and `;` (default attributes) -/
-def pDfltStmt (k : List Nat) : List DTok → Option (DStmt × List DTok)
-  | .lbrack :: r =>
-    match pAttrs r with
-    | some (as, .semi :: r') => some (.dflt k as, r')
-    | _ => none
-  | _ => none
-
-def isDfltKw (k : List Nat) : Bool := k == kwNode || k == kwEdge || k == kwGraph
-
-/-- a statement starting with an identifier other than `subgraph`: a graph attribute
-    `id = value ;` (this is all `dotparse.rs` accepts here) or default attributes
-    `node [..] ;` / `edge [..] ;` / `graph [..] ;` -/
-def pIdStmt (k : List Nat) (ts : List DTok) : Option (DStmt × List DTok) :=
-  match pAttrStmt k ts with
-  | some x => some x
-  | none => if isDfltKw k then pDfltStmt k ts else none
-
-/-- after a quoted name: an edge (`-> "target" [attrs] ;`) or a node (`[attrs] ;`) -/
-def pStrStmt (name : List Nat) : List DTok → Option (DStmt × List DTok)
-  | .arrow :: .str dst :: r =>
-    match pAttrsSemi r with
-    | some (as, r') => some (.edge name dst as, r')
-    | none => none
-  | .arrow :: _ => none
   | ts =>
-    match pAttrsSemi ts with
-    | some (as, r') => some (.node name as, r')
+    match pTargets ts with
     | none => none
+    | some (bs, r1) =>
+      match pOptAttrs r1 with
+      | none => none
+      | some (as, r2) => some (if bs.isEmpty then [.node a as] else chainEdges a as bs, r2)
+
+/-- after `graph` / `node` / `edge`: an attribute list -/
+def pDflt (what : List Nat) : List DTok → Option (List DStmt × List DTok)
+  | .lbrack :: r =>
+    match pAList false r with
+    | some (as, r') => some ([.dflt what as], r')
+    | none => none
+  | _ => none
+
+/-- a statement that is neither a subgraph nor a block, starting with token `t` -/
+def pSimple (t : DTok) (r : List DTok) : Option (List DStmt × List DTok) :=
+  match t with
+  | .id s => if isDfltKw s then pDflt (lower s) r else if isKw s then none else pNamed s r
+  | .str s => pNamed s r
+  | _ => none
+
+/-- after `subgraph`: `[ ID ] '{'` -/
+def pSubHead : List DTok → Option (List Nat × List DTok)
+  | .lbrace :: r => some ([], r)
+  | t :: .lbrace :: r =>
+    match tokID t with
+    | some n => some (n, r)
+    | none => none
+  | _ => none
+
+/-- the optional `;` after a statement -/
+def dropSemi : List DTok → List DTok
+  | .semi :: r => r
+  | ts => ts
+
+def isSubgraphKw : DTok → Bool
+  | .id s => decide (lower s = kwSubgraph)
+  | _ => false
 
 /-- `n.starts_with(p)` -/
 def startsWith : List Nat → List Nat → Bool
@@ -257,13 +355,8 @@ def startsWith : List Nat → List Nat → Bool
   | _ :: _, [] => false
   | p :: ps, c :: s => p == c && startsWith ps s
 
-/-- after `subgraph`: a name starting with `cluster_` and the `{` of the body -/
-def pClusterHead : List DTok → Option (List Nat × List DTok)
-  | .id n :: .lbrace :: r => if startsWith kwClusterPre n then some (n, r) else none
-  | _ => none
-
-/-- `P::body` after its `{`: statements up to and including the matching `}`; returns the rest of
-    the tokens. Every call consumes a token, so fuel = number of tokens never runs out
+/-- `stmt_list '}'`: statements up to and including the matching `}`; returns the rest of the
+    tokens. Every call consumes a token, so fuel = number of tokens never runs out
     (`Proofs/DotText.lean`: `pStmts_fuel`). -/
 def pStmts : Nat → List DTok → Option (List DStmt × List DTok)
   | 0, _ => none
@@ -271,42 +364,59 @@ def pStmts : Nat → List DTok → Option (List DStmt × List DTok)
   | f + 1, t :: r =>
     match t with
     | .rbrace => some ([], r)
-    | .id s =>
-      if s = kwSubgraph then
-        match pClusterHead r with
+    | .lbrace =>
+      match pStmts f r with
+      | none => none
+      | some (body, r2) =>
+        match pStmts f (dropSemi r2) with
+        | none => none
+        | some (ss, r3) => some (.sub [] body :: ss, r3)
+    | _ =>
+      if isSubgraphKw t then
+        match pSubHead r with
         | none => none
         | some (name, r1) =>
           match pStmts f r1 with
           | none => none
           | some (body, r2) =>
-            match pStmts f r2 with
+            match pStmts f (dropSemi r2) with
             | none => none
             | some (ss, r3) => some (.sub name body :: ss, r3)
       else
-        match pIdStmt s r with
+        match pSimple t r with
         | none => none
-        | some (st, r1) =>
-          match pStmts f r1 with
+        | some (sts, r1) =>
+          match pStmts f (dropSemi r1) with
           | none => none
-          | some (ss, r2) => some (st :: ss, r2)
-    | .str name =>
-      match pStrStmt name r with
-      | none => none
-      | some (st, r1) =>
-        match pStmts f r1 with
-        | none => none
-        | some (ss, r2) => some (st :: ss, r2)
-    | _ => none
+          | some (ss, r2) => some (sts ++ ss, r2)
 
-/-- `parse` on tokens: exactly `digraph { stmts }` (no graph name, nothing after the `}`) -/
-def parseToks : List DTok → Option DGraphT
-  | .id s :: .lbrace :: r =>
-    if s = kwDigraph then
-      match pStmts (r.length + 2) r with
-      | some (ss, []) => some ⟨ss⟩
-      | _ => none
-    else none
+/-- the optional `strict` -/
+def dropStrict : List DTok → List DTok
+  | .id s :: r => if lower s = kwStrict then r else .id s :: r
+  | ts => ts
+
+/-- the optional graph ID before the `{` -/
+def dropGraphId : List DTok → List DTok
+  | [] => []
+  | t :: r =>
+    match tokID t with
+    | some _ => r
+    | none => t :: r
+
+/-- `'{' stmt_list '}'` and nothing after it -/
+def parseBody : List DTok → Option DGraphT
+  | .lbrace :: r =>
+    match pStmts (r.length + 2) r with
+    | some (ss, []) => some ⟨ss⟩
+    | _ => none
   | _ => none
+
+def parseHeader : List DTok → Option DGraphT
+  | .id s :: r => if lower s = kwDigraph then parseBody (dropGraphId r) else none
+  | _ => none
+
+/-- exactly one `[strict] digraph [ID] { stmts }` -/
+def parseToks (ts : List DTok) : Option DGraphT := parseHeader (dropStrict ts)
 
 def parseDot (cs : List Nat) : Option DGraphT :=
   match lexDot cs with
@@ -388,21 +498,43 @@ def decodeEdge (pre src dst : List Nat) (attrs : List (List Nat × List Nat)) : 
       | some a, some b => some ⟨a, b, cc⟩
       | _, _ => none
 
+/-- clusters are the subgraphs whose name starts with `cluster`; every other subgraph (and a
+    bare `{ ... }` block) only groups statements of the enclosing graph -/
+def isCluster (name : List Nat) : Bool := startsWith kwCluster name
+
+mutual
+/-- the nodes of a (sub)graph in the order of the file, including those inside non-cluster
+    subgraphs; clusters are separate graphs and not looked into -/
 def decodeNodes (pre : List Nat) : List DStmt → Option (List DNode)
   | [] => some []
-  | .node name attrs :: r =>
-    match decodeNode pre name attrs, decodeNodes pre r with
-    | some n, some ns => some (n :: ns)
+  | s :: r =>
+    match decodeNodesStmt pre s, decodeNodes pre r with
+    | some a, some b => some (a ++ b)
     | _, _ => none
-  | _ :: r => decodeNodes pre r
+def decodeNodesStmt (pre : List Nat) : DStmt → Option (List DNode)
+  | .node name attrs =>
+    match decodeNode pre name attrs with
+    | some n => some [n]
+    | none => none
+  | .sub name body => if isCluster name then some [] else decodeNodes pre body
+  | _ => some []
+end
 
+mutual
 def decodeEdges (pre : List Nat) : List DStmt → Option (List DEdge)
   | [] => some []
-  | .edge src dst attrs :: r =>
-    match decodeEdge pre src dst attrs, decodeEdges pre r with
-    | some e, some es => some (e :: es)
+  | s :: r =>
+    match decodeEdgesStmt pre s, decodeEdges pre r with
+    | some a, some b => some (a ++ b)
     | _, _ => none
-  | _ :: r => decodeEdges pre r
+def decodeEdgesStmt (pre : List Nat) : DStmt → Option (List DEdge)
+  | .edge src dst attrs =>
+    match decodeEdge pre src dst attrs with
+    | some e => some [e]
+    | none => none
+  | .sub name body => if isCluster name then some [] else decodeEdges pre body
+  | _ => some []
+end
 
 /-- `decode(g, prefix)` on the statements of one (sub)graph; nested subgraphs are not looked at -/
 def decodeGraph (pre : List Nat) (ss : List DStmt) : Option DGraph :=
@@ -410,11 +542,18 @@ def decodeGraph (pre : List Nat) (ss : List DStmt) : Option DGraph :=
   | some ns, some es => some ⟨ns, es⟩
   | _, _ => none
 
-/-- `Graph::label`: the value of the last `label = ...` statement, `""` if there is none
-    (`c.label.clone().unwrap_or_default()`) -/
+/-- the last `label` of an attribute list, `cur` if there is none -/
+def lastAttrLabel : List (List Nat × List Nat) → List Nat → List Nat
+  | [], cur => cur
+  | kv :: r, cur => if kv.1 = kwLabel then lastAttrLabel r kv.2 else lastAttrLabel r cur
+
+/-- the label of a (sub)graph: the value of the last `label = ...` statement or
+    `graph [label = ...]` entry among its own statements, `""` if there is none -/
 def lastLabel : List DStmt → List Nat → List Nat
   | [], cur => cur
   | .attr k v :: r, cur => if k = kwLabel then lastLabel r v else lastLabel r cur
+  | .dflt what as :: r, cur =>
+    if what = kwGraph then lastLabel r (lastAttrLabel as cur) else lastLabel r cur
   | _ :: r, cur => lastLabel r cur
 
 /-- `s.split_once(c)` -/
@@ -446,13 +585,24 @@ def decodeCluster (body : List DStmt) : Option DCluster :=
     | some g => some ⟨tid, pos, g⟩
     | none => none
 
+mutual
+/-- the clusters of the graph in the order of the file (also those inside non-cluster subgraphs;
+    clusters inside clusters are not looked at) -/
 def decodeClusters : List DStmt → Option (List DCluster)
   | [] => some []
-  | .sub _ body :: r =>
-    match decodeCluster body, decodeClusters r with
-    | some c, some cs => some (c :: cs)
+  | s :: r =>
+    match decodeClustersStmt s, decodeClusters r with
+    | some a, some b => some (a ++ b)
     | _, _ => none
-  | _ :: r => decodeClusters r
+def decodeClustersStmt : DStmt → Option (List DCluster)
+  | .sub name body =>
+    if isCluster name then
+      match decodeCluster body with
+      | some c => some [c]
+      | none => none
+    else decodeClusters body
+  | _ => some []
+end
 
 def decodeDot (t : DGraphT) : Option DotDoc :=
   match decodeGraph [] t.stmts, decodeClusters t.stmts with
